@@ -48,6 +48,8 @@ class Scratch:
 
 def reset_class_state(ns):
     """Make runs independent: empty buffers/locks left over by an earlier program."""
+    import proto
+    proto.FAILING.clear()
     for fam in ns.families:
         for cls in fam.classes:
             if hasattr(cls, "_locks"):
